@@ -34,3 +34,16 @@ func (r *Resolver) VerifC09HasTrustAnchors() bool { return r.hasTrustAnchors() }
 
 // VerifC09StateFiles names the two files AutoTA persists under cfg.Directory.
 func VerifC09StateFiles() (state, tombstones string) { return stateFile, tombstoneFile }
+
+// VerifC09RefreshResults reads the package's dns_trust_anchor_refresh_total
+// counters (one terminal result per AutoTA run).
+func VerifC09RefreshResults() map[string]int64 {
+	return map[string]int64{
+		"success":           taRefreshSuccess.Value(),
+		"work_budget":       taRefreshWorkBudget.Value(),
+		"timeout":           taRefreshTimeout.Value(),
+		"query_error":       taRefreshQueryError.Value(),
+		"validation_error":  taRefreshValidationError.Value(),
+		"persistence_error": taRefreshPersistenceError.Value(),
+	}
+}
